@@ -225,7 +225,7 @@ TSnapAt ==
   /\ IsEvent("snap_at")
   /\ Ev.index >= 1 /\ Ev.index <= Len(hist)
   /\ Len(Ev.pairs) = Cardinality({Ev.pairs[i].k : i \in 1..Len(Ev.pairs)})
-  /\ PairsMap(EmptyKV, Ev.pairs) = hist[Ev.index]
+  /\ {<<Ev.pairs[i].k, Ev.pairs[i].v>> : i \in 1..Len(Ev.pairs)} = {<<k, hist[Ev.index][k]>> : k \in DOMAIN hist[Ev.index]}
   /\ UNCHANGED <<st, pinned, hist, dlog>>
 
 TNext == TSnapAt \/ TLazyRead \/ TDLog \/ TRecovered \/ TRecStart \/ TRoTxnAt \/ TLookupAt \/ TIterAt \/ TUpdate \/ TLookup \/ TIter \/ TRoTxn \/ TIndex \/ TReopen \/ TPrepare \/ TRecover \/ TReset
